@@ -79,6 +79,8 @@ func init() {
 		{"C02", "lostfield", props.LostFieldUpdates("ot", "circuit", "p2p")},
 		{"C10", "lostfield", props.LostFieldUpdates("gmw", "p2p")},
 		{"C03", "truncmul", props.TruncatedProducts("compiler/mpa", "compiler/ast", "compiler/ssa")},
+		{"C03", "scratchlist", props.ScratchListedTwice("compiler/ssa", "compiler/circuits", "compiler/ast", "circuit")},
+		{"C05", "scratchlist", props.ScratchListedTwice("compiler/ssa", "compiler/circuits", "compiler/ast", "circuit")},
 		{"C12", "truncmul", props.TruncatedProducts("compiler/mpa", "compiler/ast", "compiler/ssa")},
 		{"C20", "truncmul", props.TruncatedProducts("vole", "bmr", "ot/mpint")},
 		{"C13", "splitbits", props.SplitBits},
